@@ -123,6 +123,9 @@ def scalar_rules(F, R):
             # the native type must be the one matching (N, S)
             # equivalent spellings: num-traits' own Bounded impl of the native type is `MIN`/`MAX` (bounded_impl! in num-traits, a pinned dependency)
             alt = [["W(<NAT as num_traits::bounds::Bounded>::%s())" % key[1]]] if tr == "Bounded" else []
+            if key == ("PartialOrd", "partial_cmp") and ("Ord", "cmp") in exp:
+                # the canonical `Some(self.cmp(other))`: Ord::cmp of the same type is pinned to the native comparison by its own obligation
+                alt.append(["Some{<SELF as core::cmp::Ord>::cmp($self, $other)}"])
             okd = got == sorted(exp[key]) or got in alt
             R.ob("D1.delegation", short, "%s::%s" % key, okd,
                  "%s: %s::%s delegates to the native %s operation%s" % (short, tr, im["method"], nat,
